@@ -29,6 +29,11 @@ def run(ctx):
     samples = []
     for sc in scs:
         ev = json.loads(lines[sc][0])
+        if "stream" not in ev:     # periodic stream (chunkedrun): unit x run + tail
+            ev["stream"] = (ev["unit"] * min(ev["run"], 30)) + ev["tail"]
+            ev["res"] = ev["res"][:3] + ev["res"][-12:]
+            ev["ends"] = ev["ends"][:3] + ev["ends"][-12:]
+            ev["periodic"] = {"unit": bytes(ev["unit"]).decode("latin1"), "run": ev["run"]}
         cuts = cut_positions(ev["chunks"])
         inside = cuts - set(ev.get("ends", []))
         if inside:
@@ -37,7 +42,8 @@ def run(ctx):
             samples.append({"stream": bytes(ev["stream"][:120]).decode("latin1"), "chunks": ev["chunks"][:40],
                             "values_returned": len(ev["res"]) - 1, "accepted": sc in accepted})
         if sc not in accepted:
-            ctx.violation("chunked parse rejected: stream=%r chunks=%s res=%s" % (
+            ctx.violation("chunked parse rejected: %sstream=%r chunks=%s res=%s" % (
+                ("unit x %d then tail (shown shortened) " % ev["run"]) if "periodic" in ev else "",
                 bytes(ev["stream"][:60]), ev["chunks"][:20], json.dumps(ev["res"])[:200]),
                 {"event": {k: ev[k] for k in ("stream", "chunks", "res", "ends", "left")}})
     return ctx.finish("model_checking", {
